@@ -52,7 +52,7 @@ def angle_from(op):
 class RotationRng(Machine):
     PROPERTY = "C20"
     NAME = "rotation_rng"
-    BUDGET = {"quick": {"runs": 48000, "wall": 60, "digests": 32, "block": 500},
+    BUDGET = {"quick": {"runs": 96000, "wall": 70, "digests": 32, "block": 500},
               "thorough": {"runs": 1200000, "wall": 800, "digests": 256, "block": 2000}}
     LEVEL = {"quick": "exploration", "thorough": "exploration"}
     RULE = ("seeded histories of rotation constructions (ccw 2D / 3D about x,y,z, quaternion, "
@@ -78,7 +78,7 @@ class RotationRng(Machine):
                        "negative_angle", "beyond_one_turn", "radians", "tcoords", "returned_transform_mutated",
                        "about_centre_scale", "about_centre_rotate", "about_centre_shear", "about_centre_transform",
                        "scale_factory", "scale_factory_zero_refused", "passed_array_mutated",
-                       "radians_beyond_360", "quat_from_existing_rotation", "about_centre_per_axis_scale")
+                       "radians_beyond_360", "quat_from_existing_rotation", "about_centre_per_axis_scale", "scale_factory_opposite_signs", "centre_with_zero_coordinate")
 
     @classmethod
     def swarm(cls, rng, tier):
@@ -300,6 +300,11 @@ class RotationRng(Machine):
         g = rs(op["data"])
         d = 2 if (op["which"] % 4 in (1, 2) or op["d3"]) else 3
         pts = g.uniform(-20, 40, size=(5, d))
+        if op["frac"] % 4 == 0:
+            # an object whose centre has an exactly-zero coordinate (symmetric about an axis plane)
+            pts[:, 0] = np.array([-3.0, 3.0, -1.5, 1.5, 0.0])[:5] * (1 + op["a"] % 3)
+            pts[0, 0], pts[1, 0] = pts[:, 0].min(), pts[:, 0].max()
+            self.ctx.probe("centre_with_zero_coordinate")
         kind = op["obj"] % 3
         if kind == 0:
             obj = PointCloud(pts.copy())
@@ -375,9 +380,13 @@ class RotationRng(Machine):
             f = np.full(d, float(np.exp(g.uniform(-1, 1))))
             t = Scale(f)
             ctx.require(isinstance(t, UniformScale), "scale_factory", "equal_factors_not_uniform", lambda: type(t).__name__)
-        elif how == 1:     # clearly different factors
+        elif how == 1:     # clearly different factors (also: equal magnitude, opposite sign)
             f = np.exp(g.uniform(-1, 1, size=d))
             f[0] = f[1] * 1.7
+            if op["mutate"] % 2 == 0 and op["data"] % 3 == 0:
+                f = np.full(d, float(f[1]))
+                f[int(g.randint(d))] *= -1.0
+                self.ctx.probe("scale_factory_opposite_signs")
             t = Scale(f)
             ctx.require(isinstance(t, NonUniformScale) and not isinstance(t, UniformScale), "scale_factory", "different_factors_not_non_uniform",
                         lambda: type(t).__name__)
